@@ -34,6 +34,7 @@ def run(prog: Program, rep: Report, tier: str):
     rep.rule("R06.2", "Literal marshaller rejects non-members with ValueError", floor=3)
     rep.rule("R06.3", "no aliasing of the input by container rows; no mutation of the input", floor=14)
     rep.rule("R06.4", "no ambient reads on marshal paths", floor=14)
+    rep.rule("R06.5", "container marshallers convert keys/members with the context's routine for their type argument (shared with R05.2/R05.3)", floor=8)
     rows = C.handlers(prog, "marshal")
     role = {}
     for r in rows:
@@ -73,3 +74,12 @@ def run(prog: Program, rep: Report, tier: str):
     # converted members (marshal-side taint)
     c03.r03_1(prog, rep, direction="marshal", rule="R06.1")
     c03.r03_4(prog, rep, direction="marshal", rule="R06.2")
+    # member routines (incl. key routines: "primitive dict keys") are the context's routines for their type argument
+    from ..report import Report as _R, absorb
+    from . import c05
+
+    sub = _R("C06", rep.tier)
+    for r in ("R05.2", "R05.3"):
+        sub.rule(r, "", 0)
+    c05.r05_2_3(prog, sub, "marshal")
+    absorb(rep, sub, {"R05.2": "R06.5", "R05.3": "R06.5"})
